@@ -2,7 +2,7 @@
     Assumed (not proved; exercised by the correspondence run): the regex \b|\B yields an
     empty match at exactly the scalar boundaries of a valid UTF-8 record - which is what
     [char_matches] models. *)
-From TucModel Require Import Base.Bytes Base.ListX Model.Scan Model.Utf8 Model.CutStr Proofs.ScanSplit Proofs.C07.
+From TucModel Require Import Base.Bytes Base.ListX Model.Scan Model.Utf8 Model.CutStr Proofs.ScanSplit Proofs.C07 Proofs.C07More Proofs.C07Utf8.
 
 (** the fields character mode indexes are exactly the scalar encodings of the record, whole
     and in order (so every index, negative ones included, counts characters) *)
@@ -19,9 +19,36 @@ Theorem C07_characters_tile_the_record :
     utf8_chars_fuel fuel l = Some cs -> concat cs = l /\ Forall (fun c => c <> []) cs.
 Proof. exact utf8_chars_fuel_concat. Qed.
 
+(** a bound that resolves to the characters s+1 .. e prints exactly those characters, whole
+    and in order: the bytes between the start of the first and the end of the last are their
+    concatenation (negative and open sides are resolved against the number of characters
+    by C09/C06's [try_into_range]) *)
+Theorem C07_a_range_prints_exactly_the_selected_characters :
+  forall (line : bytes) (cs : list bytes) (ms : list mtch) (s e a z : nat),
+    utf8_chars line = Some cs -> char_matches line = Some ms ->
+    s < e -> e <= length cs ->
+    range_start (drop_outer (fields_of_matches ms line)) s = Some a ->
+    range_end (drop_outer (fields_of_matches ms line)) (e - 1) = Some z ->
+    slice line a z = concat (slice cs s e).
+Proof. exact chars_range_is_the_selected_characters. Qed.
+
+(** the characters of a valid text are whole scalar encodings, and any run of whole
+    characters is valid UTF-8 again: no character is split, the output stays valid *)
+Theorem C07_characters_are_whole_scalars :
+  forall (fuel : nat) (l : bytes) (cs : list bytes), utf8_chars_fuel fuel l = Some cs -> Forall scalar cs.
+Proof. exact utf8_chars_fuel_scalar. Qed.
+
+Theorem C07_selected_characters_are_valid_utf8 :
+  forall (line : bytes) (cs : list bytes) (s e : nat),
+    utf8_chars line = Some cs -> utf8_valid (concat (slice cs s e)) = true.
+Proof. exact selected_characters_are_valid_utf8. Qed.
+
 Example C07_example :   (* "a€" : one 1-byte and one 3-byte scalar *)
   utf8_chars [97; 226; 130; 172]%N = Some [[97%N]; [226; 130; 172]%N].
 Proof. reflexivity. Qed.
 
 Print Assumptions C07_fields_are_the_characters.
 Print Assumptions C07_characters_tile_the_record.
+Print Assumptions C07_a_range_prints_exactly_the_selected_characters.
+Print Assumptions C07_characters_are_whole_scalars.
+Print Assumptions C07_selected_characters_are_valid_utf8.
